@@ -74,7 +74,9 @@ func c20One(env *fw.Env, i int64) {
 	env.Sample(cs)
 	env.Event("histories", 1)
 	t3 := 200 * time.Millisecond
-	rg, err := newRig(rigOpts{Active: cs.Active, T3: t3, T5: 40 * time.Millisecond, BackoffInit: 10 * time.Millisecond})
+	var asyncErrCallbacks atomic.Int64
+	rg, err := newRig(rigOpts{Active: cs.Active, T3: t3, T5: 40 * time.Millisecond, BackoffInit: 10 * time.Millisecond,
+		Extra: []hsms.ConnOption{hsms.WithAsyncSendErrorHandler(func(hsms.Message, error) { asyncErrCallbacks.Add(1) })}})
 	if err != nil {
 		env.Discard()
 		return
@@ -288,12 +290,23 @@ func c20One(env *fw.Env, i int64) {
 		return
 	}
 	callsA = append(callsA, runCalls("a2", 2)...)
+	// data frames the peer sends while the link is NOT selected are answered Reject(4): they are not "received"
+	for k := 0; k < 1+int(i%3); k++ {
+		_ = pc.Send(peer.Data(5, 1, false, 0x1234, 0xD5000000|uint32(k), c06Body("while-deselected")))
+		env.Event("peer_data_while_not_selected", 1)
+	}
 	_ = pc.Send(peer.SelectReq(0x1234, 0xDE5E0002))
 	if !waitState(rg.Conn, hsms.SelectedState, 10*time.Second) {
 		env.Violate("reselect-failed", "Select.req after Deselect did not select", cs)
 		return
 	}
 	callsA = append(callsA, runCalls("a3", 2)...)
+	// unsolicited primaries from the peer while Selected: each well-formed one is "received" exactly once
+	for k := 0; k < int(i%5); k++ {
+		peerDataWritten.Add(1)
+		_ = pc.Send(peer.Data(5, 1, false, 0x1234, 0xD5100000|uint32(k), c06Body("unsolicited")))
+		env.Event("peer_unsolicited_primaries", 1)
+	}
 	count(callsA, &tA)
 	if !quiesce(accepted(callsA), pc) {
 		env.Violate("link-dropped", "the fault-free part lost the link", cs)
@@ -308,6 +321,25 @@ func c20One(env *fw.Env, i int64) {
 	}
 	env.Eval(fw.HashStr("c20", fmt.Sprint(cs)), kinds >= 3)
 	check := func(where, name string, got, want int64) {
+		if name == "Reconnecting" && got != want {
+			// "positive while a reconnect loop runs": the point is quiescent only once no goroutine is inside the
+			// loop any more (it returns a moment after the generation it established was selected)
+			loopRunning := func() bool {
+				for _, g := range libGoroutines() {
+					if strings.Contains(g, ".connectLoop(") {
+						return true
+					}
+				}
+
+				return false
+			}
+			if waitFor(3*time.Second, func() bool { return !loopRunning() }) {
+				env.Event("reconnect_loop_seen_returning_after_selected", 1)
+				got = mt.Reconnecting()
+			} else {
+				env.Note("history %d (%s): a goroutine is still inside connectLoop 3 s after the link was selected and fenced:\n%s", i, where, strings.Join(libGoroutines(), "\n\n"))
+			}
+		}
 		if got != want {
 			env.Violate("counter-"+name+"-"+where, fmt.Sprintf("%s: %s = %d, accountant expects %d (tally %+v)", where, name, got, want, tA), cs)
 		}
@@ -319,6 +351,7 @@ func c20One(env *fw.Env, i int64) {
 	check("fault-free", "DataMsgErrCount", int64(mt.DataMsgErrCount()), tA.t3)
 	check("fault-free", "DataMsgDropNotSelectedCount", int64(mt.DataMsgDropNotSelectedCount()), tA.refused)
 	check("fault-free", "AsyncSendErrCount", int64(mt.AsyncSendErrCount()), 0)
+	check("fault-free", "AsyncSendErrorHandler-calls", asyncErrCallbacks.Load(), 0)
 	check("fault-free", "Reconnecting", mt.Reconnecting(), 0)
 	check("fault-free", "Reconnects", int64(mt.Reconnects()), 0)
 
@@ -427,6 +460,53 @@ func c20One(env *fw.Env, i int64) {
 			}
 			check("after-write-timeout", "DataMsgInflightCount", mt.DataMsgInflightCount(), 0)
 			check("after-write-timeout", "Reconnecting", mt.Reconnecting(), 0)
+		}
+	}
+
+	// ---- part B3: an ASYNC data send whose write fails (peer stops reading): async-error counter and callback,
+	// never the synchronous error counter ----
+	if i%4 == 2 {
+		_ = rg.Conn.UpdateConfigOptions(hsms.WithWriteTimeout(250 * time.Millisecond))
+		quiesce(0, pc2)
+		err0, send0, async0, cb0 := int64(mt.DataMsgErrCount()), int64(mt.DataMsgSendCount()), int64(mt.AsyncSendErrCount()), asyncErrCallbacks.Load()
+		big := secs2.B(make([]byte, 1<<20))
+		_ = big.ToBytes()
+		pc2.StallReads(true)
+		var enqueued int64
+		for n := 0; n < 400 && int64(mt.AsyncSendErrCount()) == async0 && rg.Conn.State() == hsms.SelectedState; n++ {
+			ctx, cancel := context.WithTimeout(context.Background(), time.Second)
+			if err := rg.Conn.SendDataMessageAsync(ctx, 3, 3, false, big); err == nil {
+				enqueued++
+			}
+			cancel()
+			time.Sleep(2 * time.Millisecond)
+		}
+		waitFor(5*time.Second, func() bool { return int64(mt.AsyncSendErrCount()) > async0 })
+		pc2.StallReads(false)
+		if int64(mt.AsyncSendErrCount()) > async0 {
+			waitFor(5*time.Second, func() bool { return rg.Conn.State() != hsms.SelectedState })
+			pc3, _, err := rg.NextGenRetry(onFrame, 6)
+			if err != nil {
+				env.Violate("no-recovery", fmt.Sprintf("after a failed async write the connection did not come back: %v", err), cs)
+				return
+			}
+			defer pc3.Close()
+			if !quiesce(0, pc3) {
+				return
+			}
+			env.Event("outcome_async_write_failure", 1)
+			asyncD, cbD, sendD := int64(mt.AsyncSendErrCount())-async0, asyncErrCallbacks.Load()-cb0, int64(mt.DataMsgSendCount())-send0
+			if got := int64(mt.DataMsgErrCount()) - err0; got != 0 {
+				env.Violate("counter-DataMsgErrCount-async-write-failure", fmt.Sprintf("only asynchronous sends failed (write to a peer that stopped reading) and the synchronous-send error counter moved by %d", got), cs)
+			}
+			if asyncD != cbD {
+				env.Violate("counter-AsyncSendErrCount-vs-handler", fmt.Sprintf("AsyncSendErrCount moved by %d, the async-send-error handler was called %d times", asyncD, cbD), cs)
+			}
+			if sendD+asyncD > enqueued {
+				env.Violate("counter-async-conservation", fmt.Sprintf("%d async sends were accepted; DataMsgSendCount moved by %d and AsyncSendErrCount by %d (sum exceeds what was accepted)", enqueued, sendD, asyncD), cs)
+			}
+			check("after-async-write-failure", "DataMsgInflightCount", mt.DataMsgInflightCount(), 0)
+			check("after-async-write-failure", "Reconnecting", mt.Reconnecting(), 0)
 		}
 	}
 
